@@ -9,7 +9,7 @@ VERIF = os.path.dirname(os.path.dirname(os.path.abspath(__file__)))
 REG = {
     "C04": (
         "explicit-state BFS to fixpoint over the real ATP_Store with a peer store (engine A), per-transition ledger oracle",
-        "168 operations (consume over amounts {0,1,2,3,5,1000} x 3 currencies x allow_debt x priorities, regenerate, transfers both "
+        "168 operations (consume over amounts {0,1,2,3,4,5,1000} x 3 currencies x allow_debt x priorities, regenerate, transfers both "
         "ways and to self, convert, dormancy, interest, reset, observe, peer operations) are applied to the real stores in every "
         "reachable canonical state (atp, gtp, nadh, debt, metabolic state of main and peer) of 25 roots in quick (more in thorough): "
         "capacity configurations plus roots with silent=False, a recording on_state_change, debt_interest=0 and a peer with GTP/NADH "
@@ -24,37 +24,43 @@ REG = {
     ),
     "C05": (
         "schedule enumeration with preemption bounding over real threads (engine C); linearizability oracle = the implementation "
-        "run sequentially in every call order, plus observer-side ledger clauses",
-        "222 harnesses in quick: 13 curated collisions (incl. two real BioAgent.express calls sharing a store, opposite transfers "
-        "under both lock-rank orders, under-funded three-store rings) and all unordered pairs of operation kinds from several start "
-        "states - P (10 kinds), G (14 kinds: three currencies, debt carried, silent=False, state-change callback, getters), D "
-        "(starving/dormant, priorities), X (raising callback), I (apply_debt_interest, advisory). Thorough adds the other curated "
-        "harnesses, funded rings, 35 three-thread multisets and bytecode granularity on 4 harnesses. Every line of metabolism.py and "
-        "every lock acquisition is a scheduling point; every schedule with <= 2 preemptions (G: 1) in quick, <= 3 (G, rings, triples: "
-        "2) in thorough runs to completion. Oracle: the outcome (return values, final balances/debt/state, notifications) is produced "
-        "by some sequential order of the same calls; balances never negative at any point, debt within its limit, successful spends "
-        "<= available wealth, no deadlock, livelock or escaping exception.",
-        "PointLock/CoopLock has threading.Lock/RLock semantics; atomicity of a single bytecode under the GIL is trusted; "
-        "free-threaded builds out of scope; the regeneration thread is modelled as an explicit regenerate() thread. Counted, not "
-        "asserted: intermediate values read by lock-free getters, apply_debt_interest outcomes. An outcome that needs a split "
-        "transfer is keyed nonatomic-transfer (recorded as fixed, so it fails the run)",
+        "run sequentially (every harness call guarded) in every call order and store-creation order, plus observer-side ledger "
+        "clauses",
+        "263 harnesses in quick: 13 curated collisions (incl. two real BioAgent.express calls on one store, both lock-rank orders, "
+        "under-funded three-store rings) and all unordered pairs of operation kinds from start states reached through the public "
+        "API - P (10 kinds), G (14: three currencies, debt, silent=False, recording callback, getters), D (starving/dormant, "
+        "priorities), X (raising callback), E (callback raising 10 builtin exception classes, with / without message), I "
+        "(apply_debt_interest, advisory), K (each thread constructs its store as a scheduled step, then transfers). Callback "
+        "families hold every transfer || transfer pair under both creation orders of the stores, with amounts crossing a "
+        "metabolic-state threshold. Thorough adds more curated harnesses, funded rings, a K ring, 35 three-thread multisets, "
+        "bytecode granularity on 4 harnesses. Every line of metabolism.py and every lock acquisition (also the second of one source "
+        "line) is a scheduling point; every schedule with <= 2 preemptions (G, E: 1) in quick, <= 3 (G, E, rings, triples: 2) in "
+        "thorough runs to completion. Oracle: the outcome (returns or raised class, final balances/debt/state, notifications) is "
+        "that of some sequential order; balances never negative, debt within its limit, spends <= available wealth, no deadlock, "
+        "livelock or escaping exception.",
+        "CoopLock has threading.Lock/RLock semantics; atomicity of a single bytecode under the GIL is trusted; free-threaded builds "
+        "out of scope; the regeneration thread is modelled as an explicit regenerate() thread. A reference or setup call that hangs "
+        "or fails sequentially is a violation of its own. Counted, not asserted: intermediate getter reads, apply_debt_interest "
+        "outcomes. A split-only outcome is keyed nonatomic-transfer (recorded as fixed, so it fails the run)",
     ),
     "C07": (
         "bounded-exhaustive enumeration of gate logic x answer pair x options x prompts on the real run() (engine D) + "
         "explicit-state BFS to fixpoint over cache histories under a virtual clock (engine A)",
-        "All 6 gate logics x 20x20 executor/assessor answers (the 7 of the property, 6 more unknown spellings, 4 more exception kinds, "
-        "3 non-verdict returns) x 24 option tuples (cache on/off, TTL {300,0,1e12}, breaker off/(5,60 s)/(1,0 s), silent off + "
-        "callbacks + timeout_seconds=0) x 8 prompts (quick: non-base tuples on one prompt); three run() calls per cell (answer; "
-        "opposite verdicts; after the TTL). Further families: 9x9 payload/confidence shapes; ~30 near-miss variants (case, whitespace, "
-        "Unicode forms, invisible characters) of 4 prompts on one caching loop; base cells after history prefixes + clock advance / "
-        "clear_cache / reset_circuit_breaker. Engine A: run/advance/clear histories over two prompts differing by a trailing space, "
-        "to fixpoint. Oracle (one-directional): not blocked => reference table from the statement; token => assessor PERMIT, hash is "
-        "a sha256 prefix of exactly this prompt, issuer = assessor; a reply given without consulting an agent equals the original "
-        "reply of the same prompt.",
-        "stub agents stand in for BioAgent: every verdict pair witnessed on the built-in agents is re-run with stubs and must agree; "
-        "MAJORITY over two agents is read as 'both permit'; a blocked token-less reply without agent consultation while the breaker "
-        "is enabled counts as a breaker refusal (C08); truncated-md5 cache-key collisions not explorable; re-evaluation of expired "
-        "entries and callback arguments are not asserted",
+        "All 6 gate logics x 20x20 executor/assessor answers (the 7 of the property, 6 more unknown spellings, 4 more exception "
+        "kinds, 3 non-verdict returns) x 24 option tuples (cache on/off, TTL {300,0,1e12}, breaker off/(5,60 s)/(1,0 s), silent off "
+        "+ callbacks + timeout_seconds=0) x 8 prompts (quick: non-base tuples on one prompt); three run() calls per cell (answer; "
+        "opposite verdicts; after the TTL). Self-extending unknown-verdict alphabet: every UPPER_CASE string constant of the "
+        "library source, harvested with ast (22 words such as SUCCESS, BLOCKED, CIRCUIT_OPEN; 76 spellings by case), as executor "
+        "and as assessor verdict against every base verdict and itself under all 6 logics. Further families: 9x9 payload/confidence "
+        "shapes; ~30 near-miss variants (case, whitespace, Unicode forms, invisible characters) of 4 prompts on one caching loop; "
+        "base cells after history prefixes + clock advance / clear_cache / reset_circuit_breaker. Engine A: run/advance/clear "
+        "histories over two prompts differing by a trailing space, to fixpoint. Oracle (one-directional): not blocked => reference "
+        "table from the statement; token => assessor PERMIT, hash is a sha256 prefix of exactly this prompt, issuer = assessor; a "
+        "reply given without consulting an agent equals the original reply of the same prompt.",
+        "stub agents stand in for BioAgent: every verdict pair witnessed on the built-in agents is re-run with stubs and must "
+        "agree; MAJORITY over two agents is read as 'both permit'; a harvested word never counts as an approval; a blocked "
+        "token-less reply without agent consultation while the breaker is enabled counts as a breaker refusal (C08); truncated-md5 "
+        "cache-key collisions not explorable; re-evaluation of expired entries is not asserted",
     ),
     "C08": (
         "explicit-state BFS to fixpoint over request-outcome / cache-repeat / clock-advance / reset histories under a virtual "
@@ -77,53 +83,60 @@ REG = {
         "bounded-exhaustive inputs from automatically derived signature witnesses x perturbations against an independent reference "
         "matcher (engine D) + explicit-state BFS over membrane and innate-gate histories under a virtual clock (engine A)",
         "Witnesses are derived from the sre parse tree of every built-in / generated custom / learned / imported signature of both "
-        "gates (each alternation branch, minimal and 2x repetitions), perturbed (case, embedding with 3 separators, control "
-        "characters, lone surrogates, 100k+ lengths) and run on fresh gates for every threshold x installation channel x 18 validator "
-        "sets, plus hostile structural inputs (deep JSON, 5000-digit numbers); repeated with all other options non-default. Engine A: "
-        "two membranes over filter (8 inputs) / learn / forget / add_signature / set_threshold / export-import / clear_audit_log / "
-        "clock advance {1,59,61} s, rate_limit {None,0,1,2}, depth 5 (thorough 6, core alphabet 7); two innate gates over check / "
-        "add_pattern / add_validator / reset_inflammation / clock advance, depth 5 (6). Oracle: allowed => no active signature >= "
-        "threshold matches and no validator must reject; scan decisions report the exact matched set and its maximum level; a "
-        "scan-blocked input stays blocked under perturbation and forever after; <= rate_limit admitted per 60 s window; audit +1 per "
-        "filter; nothing raises.",
+        "gates, perturbed (case, embedding with 3 separators, control characters, lone surrogates, 100k+ lengths) and run on fresh "
+        "gates for every threshold x installation channel x 18 validator sets, plus hostile structural inputs (deep JSON, "
+        "5000-digit numbers); repeated with all other options non-default. Engine A: two membranes over filter (8 inputs) / learn / "
+        "forget / add_signature / set_threshold / export-import / clear_audit_log / clock advance {1,59,61} s, rate_limit "
+        "{None,0,1,2}, depth 5 (thorough 6-7); two innate gates over check / add_pattern / add_validator / reset_inflammation / "
+        "clock advance, depth 5 (6). Public API only: clone and key fingerprint vars() generically, the audit trail and call "
+        "counters left out of the key are located by behaviour on a probe gate; the virtual clock also covers aliased and "
+        "function-level imports. Oracle: allowed => no active signature >= threshold matches and no validator must reject; scan "
+        "decisions report the exact matched set and its maximum level; a scan-blocked input stays blocked under perturbation and "
+        "forever after; <= rate_limit admitted per 60 s window; audit +1 per filter; nothing raises.",
         "the reference matcher is cross-checked against re.compile(p, re.I).search on every pair (disagreement = harness error); "
         "characters with non-1:1 case folds are don't-care; replay-memory hash collisions not explorable; 'maximum over matched' is "
         "asserted for scan decisions only; the validator reference is one-directional; raising callbacks are not asserted; regex "
-        "back-tracking latency is not a verdict",
+        "back-tracking latency is not a verdict; the clone self-check compares the full fingerprint",
     ),
     "C12": (
         "bounded-exhaustive enumeration of templates x contexts against an independent single-pass reference renderer (engine D), "
-        "opacity oracle over payload slots",
-        "Templates are sequences of segment kinds of the documented grammar at three alphabet levels (full 88 kinds, std 30, core 12): "
-        "quick uses full for <= 1 segment, std for 2, core for 3; thorough full for <= 2, std for 3, core for 4. Kinds: text, plain / "
-        "optional / defaulted / filtered variables, if/else, each-loops with item/index/first/last/dict keys, includes to 3 levels "
-        "and unknown; contexts v over 13 values x w; strict and non-strict. Phase 1: output equals the reference, needed unbound "
-        "variables are warned about, strict raises when a needed plain variable is unbound and not when everything referenced is "
-        "bound. Phase 2: one slot at a time (bound value, loop item, dict field, second variable, default literal, literal text, "
-        "custom-filter result) carries each of 13 payloads (every construct, a half-open brace, private-use characters) and the "
-        "output must contain it verbatim; phase 2u the same with the payload's names unbound. Shadow family (loop-special names as "
-        "dict keys / outer variables) and api family (translate(mRNA), by name after re-registration, second instances).",
+        "opacity oracle over payload slots, instance-isolation family with sibling instances",
+        "Templates are sequences of segment kinds of the documented grammar at three alphabet levels (full 88 kinds, std 30, core "
+        "12): quick uses full for <= 1 segment, std for 2, core for 3; thorough full for <= 2, std for 3, core for 4; contexts v "
+        "over 13 values x w; strict and non-strict. Phase 1: output equals the reference, needed unbound variables are warned "
+        "about, strict raises iff a needed plain variable is unbound. Phase 2: one slot at a time (bound value, loop item, dict "
+        "field, second variable, default literal, literal text, custom-filter result) carries each of 13 payloads (every construct, "
+        "a half-open brace, private-use characters) and the output must contain it verbatim; phase 2u the same with the payload's "
+        "names unbound. Shadow family (loop-special names as dict keys / outer variables), api family (translate(mRNA), by name "
+        "after re-registration, second instances) and isolation family: three judged instances, each built between siblings that "
+        "got other filter / template names through every instance-level extension point and re-define the built-in filter names; "
+        "templates use every sibling-only name as default word, include target and variable; reference = the judged instance's own "
+        "tables.",
         "blocks are non-nested and block bodies hold only text and plain variables (the quantifier's grammar); text emitted for an "
-        "unbound plain/filtered variable, each over a non-list and raising custom filters are not judged; "
-        "reinterpreted:default-literal:include is the one known finding, any other channel x construct pair is a violation",
+        "unbound plain/filtered variable, each over a non-list, raising custom filters, a built-in filter name re-defined on the "
+        "judged instance and direct writes to .filters / .templates are not judged; reinterpreted:default-literal:include is the "
+        "one known finding, any other channel x construct pair is a violation",
     ),
     "C01": (
-        "bounded-exhaustive input enumeration on the real Mitochondria (engine D): forbidden-AST probes x contexts x pathways x tool "
-        "sets, name universe under an audit hook, configuration product; resource clause in forked children under kernel limits",
-        "Probes for every forbidden ast.expr class of the running interpreter (Dict/Set as literal-only) sit at the root and in every "
-        "strict hole of the allowed contexts of depth <= 2 (thorough 3, innermost level by representatives) on 5 pathways x 4 tool "
-        "sets; ~460 builtins/math/operator names x 7 call shapes x 9 placements run under sys.addaudithook, canaries and a "
-        "dangerous-builtin table. Totality: 128 hostile strings, multi-byte characters and lone surrogates at offsets 0..71 (thorough "
-        "0..135), awkward-result expressions, both silent settings, every pathway and digest_glucose; the product timeout_seconds x "
-        "max_ros x silent x allowed_capabilities x registration route, tool answers (every builtin Exception class) and every prefix "
-        "of <= 2 public operations. Oracle: forbidden probe => failure result, no tool body run; never raises; a string a fresh "
-        "engine refuses is not accepted after a history. A magnitude alphabet (16 base expressions in quick) x timeout values runs "
-        "in forked children under RLIMIT_AS 4 GiB and RLIMIT_CPU = max(3 s, 6 x timeout): killed = never returned. ROS-latch "
-        "histories to depth 30.",
-        "only str inputs, default recursion limit, strict UTF-8 stdout; tool bodies are user code (only whether they run is judged); "
-        "operator classes outside the documented table and unvetted accepted names are observed, not judged; the never-enforced "
-        "timeout is the known finding unbounded:{Pow-int, factorial, Mult-seq, sum-concat}; for timeouts whose 6x multiple exceeds "
-        "30 s (or inf/nan) an overrun is noted only",
+        "bounded-exhaustive input enumeration on the real Mitochondria (engine D): forbidden-AST probes x contexts x pathways x "
+        "tool sets, name universe under an audit hook, two-call confinement histories in freshly forked processes, configuration "
+        "product; resource clause in forked children under kernel limits",
+        "Probes for every forbidden ast.expr class of the running interpreter sit at the root and in every strict hole of the "
+        "allowed contexts of depth <= 2 (thorough 3) on 5 pathways x 4 tool sets; ~460 builtins/math/operator names x 7 call shapes "
+        "x 9 placements run under sys.addaudithook with canaries. History layer: every name text, root / depth-1 probe and trick "
+        "string as the two-call sequence a;b for all 36 ordered pairs of the six entry points, b on the same and on a second "
+        "engine, each sequence in a freshly forked process. Totality: 128 hostile strings, multi-byte characters and lone "
+        "surrogates at offsets 0..71 (thorough 0..135), awkward-result expressions; the product timeout_seconds x max_ros x silent "
+        "x allowed_capabilities x registration route, tool answers (every builtin Exception class), prefixes of <= 2 public "
+        "operations. Oracle: forbidden probe => failure result, no tool body run; never raises; a string refused when fresh is not "
+        "accepted after a history. A magnitude alphabet x timeout values runs in forked children under RLIMIT_AS 4 GiB and "
+        "RLIMIT_CPU = max(3 s, 6 x timeout): killed = never returned. ROS-latch histories to depth 30 (thorough 60), state cloned / "
+        "fingerprinted by value type.",
+        "only str inputs, strict UTF-8 stdout; tool bodies are user code (only whether they run is judged); Dict/Set displays are "
+        "literal-only; operator classes outside the documented table and unvetted accepted names are observed, not judged; history: "
+        "two calls of one text, only refusal -> acceptance judged; the never-enforced timeout is the known finding "
+        "unbounded:{Pow-int, factorial, Mult-seq, sum-concat}; timeouts whose 6x multiple exceeds 30 s (or inf/nan): overrun noted "
+        "only",
     ),
     "C02": (
         "bounded-exhaustive enumeration of expression texts of the allowed grammar against Python's own eval (engine D); value-class "
@@ -146,14 +159,17 @@ REG = {
         "provider (engine B) + flat exhaustive family over options, declaration forms and history prefixes (engine D)",
         "Allowed sets {None, {}, {NET}, {NET,READ_FS}} x 13 declaration styles x tools t0,t1 (thorough t2). Engine A: engulf / "
         "register / re-register, metabolize over text shapes x 5 pathways, execute_tool_call and scripted LLM loops in every "
-        "reachable canonical state (depth bound 4, thorough 5; fixpoint reached). Engine B: every provider answer sequence (stop / t0 / "
-        "t1 / unknown / two tools per round) after every registration prefix, <= 3 deviations in quick, unbounded in thorough. Engine "
-        "D: constructor options (silent, timeout_seconds, max_ros, allowed-set container, tools=) x up to 40 declaration forms x every "
-        "entry point incl. digest_glucose, and histories 'declare A, prefix (call to the same or another name, introspection, repair, "
-        "another engine sharing the name or tool object), re-register as B, judged request' replayed without state merging (quick: "
-        "one option off its default at a time). Oracle: a tool whose declared requirement is not a subset of the allowed set never "
-        "has its body counter move - also a replaced tool object - and the request is reported as a failure.",
-        "max_ros=1e9 so the ROS latch never engages; not modelled or asserted: a tool declaring different requirements in its two "
+        "reachable canonical state (depth bound 4, thorough 5; fixpoint reached); the key is a name-free recursive fingerprint of "
+        "the engine instance minus the activity statistics, located by behaviour (numeric fields that tool-less requests change). "
+        "Engine B: every provider answer sequence (stop / t0 / t1 / unknown / two tools per round) after every registration prefix, "
+        "<= 3 deviations in quick, unbounded in thorough. Engine D: constructor options (silent, timeout_seconds, max_ros, "
+        "allowed-set container, tools=) x up to 40 declaration forms x every entry point incl. digest_glucose, and histories "
+        "'declare A, prefix (other calls, introspection, repair, another engine sharing the name or tool object), re-register as B, "
+        "judged request' replayed without state merging (quick: one option off its default at a time). Oracle: a tool whose "
+        "declared requirement is not a subset of the allowed set never has its body counter move - also a replaced tool object - "
+        "and the request is reported as a failure.",
+        "max_ros=1e9 so the ROS latch never engages; hidden state outside vars(engine) is not in engine A's key (validate_canon "
+        "samples it, engine D replays unmerged); not modelled or asserted: a tool declaring different requirements in its two "
         "attributes, in-place change of a declaration or of the allowed set after registration, direct writes to the public tools "
         "dict; allowed tools actually running is a non-vacuity outcome, not a verdict",
     ),
@@ -162,16 +178,19 @@ REG = {
         "turns a self-deadlock into an observable result (engine A)",
         "112 configurations in quick (more in thorough): max_operations {0,1,3,12} (thorough also 2,5), error_threshold, renewal "
         "on/off, lifetime and idle limits off / 1 h,10 min / 0.25 h,2.5 min, callbacks both/none/one, silent on/off. Family 0 "
-        "(notifications subscribed) to depth 6 (thorough 7), family 1 (other callback / silent / limit combinations) to depth 5 (6). "
-        "Alphabet: start, tick(c in {0,1,2,max}), record_error, heartbeat, check_timeouts, renew(amount in {None,0,1,max,max+5}, "
-        "reset_errors), trigger_apoptosis, terminate, reset, clock advance {5,10,60} min; two bystander lifecycles live in the "
-        "process. Oracle: every observed phase move is in the legal relation; TERMINATED absorbing, APOPTOTIC/TERMINATED ticks False; "
-        "tick True <=> ACTIVE afterwards; 0 <= length <= max; unit ticks True since the last renew <= max_operations; renew refused "
-        "when disallowed or TERMINATED; error threshold / elapsed limit => SENESCENT; every call returns (HangDetected instead of a "
-        "timeout); nothing is visible on another instance. Depth-bounded, no fixpoint.",
+        "(notifications subscribed) to depth 6 (thorough 7), family 1 (other callback / silent / limit combinations) to depth 5 "
+        "(6). Alphabet: start, tick(c in {0,1,2,max}), record_error, heartbeat, check_timeouts, renew(amount in "
+        "{None,0,1,max,max+5}, reset_errors), trigger_apoptosis, terminate, reset, clock advance {5,10,60} min; two bystander "
+        "lifecycles live in the process. Oracle: every observed phase move is in the legal relation; TERMINATED absorbing, "
+        "APOPTOTIC/TERMINATED ticks False; tick True <=> ACTIVE afterwards; 0 <= length <= max; unit ticks True since the last "
+        "renew <= max_operations; renew refused when disallowed or TERMINATED; error threshold / elapsed limit => SENESCENT; every "
+        "call returns (HangDetected instead of a timeout); nothing is visible on another instance. Public API only; clone and the "
+        "hidden time marks of the canonical key walk vars() by value type, never by attribute name (dedup only, no verdict). "
+        "Depth-bounded, no fixpoint.",
         "CoopLock mirrors Lock/RLock semantics; idle limit judged with the most generous notion of activity (only 'limit elapsed => "
         "SENESCENT'); without a subscribed callback a phase pair is judged by existence of a legal move sequence; reset() is "
-        "re-initialisation, compared with a fresh object; renew while APOPTOTIC returning True with the phase unchanged is not judged",
+        "re-initialisation, compared with a fresh object; renew while APOPTOTIC returning True with the phase unchanged is not "
+        "judged; elapsed times of time marks are capped at the largest configured limit in the key",
     ),
     "C11": (
         "bounded-exhaustive enumeration of schemas x instances x corruption-operator sequences x strategy orders x {fold, "
@@ -191,55 +210,64 @@ REG = {
         "strategy list gets only the order-independent clauses; quick uses a reduced hazard alphabet",
     ),
     "C13": (
-        "explicit-state BFS over waste-handling histories with per-item conservation accounting and a hang-detecting lock (engine A) + "
-        "schedule enumeration with preemption bounding over two real threads (engine C)",
-        "Engine A: 87 configurations in quick (max_queue_size {2,3,4,8} x auto_digest_threshold {1,2,3,8}, retention 60/30/0 min, "
+        "explicit-state BFS over waste-handling histories with per-item conservation accounting and a hang-detecting lock (engine "
+        "A) + schedule enumeration with preemption bounding over two real threads (engine C)",
+        "Engine A: 103 configurations in quick (max_queue_size {2,3,4,8} x auto_digest_threshold {1,2,3,8}, retention 60/30/0 min, "
         "digester registry custom/partial/builtin, silent on/off), histories to depth 7 (thorough 10) over ingest of each type x "
         "digester answer (dict, {}, None, 0, non-dict, raise with/without message, re-entering ingest), ingest_error, "
-        "ingest_sensitive x on_toxic answer, daemon prune, digest(None/0/1/2/9), autophagy, clock advance, clear_recycling_bin, a "
-        "second instance. Every item has a unique id and is always exactly one of queued / digested / reported error / "
-        "emergency-dropped / expired; queue <= max_queue_size; sensitive items never recycled, on_toxic at most once and exactly once "
-        "if digested; every call returns (HangDetected otherwise). Engine C: 49 two-thread harnesses in quick (all unordered pairs of "
-        "single operations from 6 kinds on two configurations at bound 2; 7 curated at bound 1, four also 2); thorough: those at "
-        "bound 3, pairs of two-operation programs at bound 1; every line of lysosome.py is a scheduling point, deadlock = detected.",
-        "CoopLock has Lock/RLock semantics; harness digesters stand in for the built-in ones (types without one are observed through "
-        "counters only); the path of an item (digest / auto-digest / emergency) is derived from the public call; an expired sensitive "
-        "item disposed of without callback is by design; more than 2 threads, bytecode granularity and re-entering ingest at capacity "
-        "not explored",
+        "ingest_sensitive x on_toxic answer, daemon prune, digest(None/0/1/2/9), autophagy, clock advance, clear_recycling_bin, "
+        "sibling instances (from separate arguments and from the SAME caller-owned digesters dict, own on_toxic each, same oracle), "
+        "instance under test built second. Public API only; queued identities, clone and locks come from a generic walk over "
+        "vars(). Every item has a unique id and is always exactly one of queued / digested / reported error / emergency-dropped / "
+        "expired; queue <= max_queue_size; sensitive items never recycled, on_toxic at most once and exactly once if digested; "
+        "every call returns (HangDetected otherwise). Engine C: 49 two-thread harnesses in quick (all unordered pairs of single "
+        "operations from 6 kinds on two configurations at bound 2; 7 curated at bound 1, four also 2); thorough: those at bound 3, "
+        "pairs of two-operation programs at bound 1; every line of lysosome.py is a scheduling point, deadlock = detected.",
+        "CoopLock has Lock/RLock semantics; harness digesters live in one caller-owned dict and stand in for the built-in ones "
+        "(types without one are observed through counters only); the path of an item (digest / auto-digest / emergency) is derived "
+        "from the public call; an expired sensitive item disposed of without callback is by design; more than 2 threads, bytecode "
+        "granularity and re-entering ingest at capacity not explored",
     ),
     "C16": (
         "bounded-exhaustive enumeration of port-type pairs, wiring diagrams, run-time labels, capability sets and wire / execution "
         "histories against a Kahn-scheduling reference (engine D)",
-        "(a) all 21x21 (data type, integrity) pairs through connect() and can_flow_to(), plus unknown names; (b) every diagram of <= 3 "
-        "modules (thorough 4) with 0..2 in / 0..2 out ports each within total-port bounds, every set of attempted wires, every subset "
-        "of modules lacking a handler, every external-input assignment incl. wired-and-external; (c) chain / fan-out / join shapes x "
+        "(a) all 21x21 (data type, integrity) pairs through connect() and can_flow_to(), plus unknown names; (b) every diagram of "
+        "<= 3 modules (thorough 4) with 0..2 in / 0..2 out ports each within total-port bounds, every set of attempted wires, "
+        "handler-less module subset and external-input assignment incl. wired-and-external; (c) chain / fan-out / join shapes x "
         "label tuples x handler result kinds (falsy payloads, wrong type, lower / higher label) x external kinds; (d) capability "
         "subsets, repeated calls; (e) small diagrams x every wire sequence x two executions with a mutation in between "
-        "(re-registration, fresh executor, one more connect). (b), (c), (e) run with enforce_static_checks True and False. Oracle: "
-        "accepted <=> same type and rank(src) >= rank(dst); schedulable and consistent => every handler once, after its feeders, with "
-        "correctly typed and sufficiently trusted inputs, topological execution_order; otherwise WiringError with no handler run "
-        "twice or with a missing input; capabilities = union. A sweep counter (2n+4) makes non-termination a finite failure.",
+        "(re-registration, handlers registered late on the same executor, fresh executor, one more connect), plus an EXISTING "
+        "executor whose diagram is connected further before its first and before its second execution, judged against the diagram "
+        "as it is now and as it was at construction (violation only if wrong for both). (b), (c), (e) run with "
+        "enforce_static_checks True and False. Oracle: accepted <=> same type and rank(src) >= rank(dst); schedulable and "
+        "consistent => every handler once, after its feeders, with correctly typed and sufficiently trusted inputs, topological "
+        "execution_order; otherwise WiringError with no handler run twice or with a missing input; capabilities = union. A sweep "
+        "counter (2n+4) bounds non-termination.",
         "(b) uses one uniform port type (type checks and scheduling assumed independent, re-checked on (c)); the ordering clause is "
         "asserted for completed runs only; handlers are pure and never raise; enforce_static_checks is read as a redundant delivery "
-        "re-check and no clause depends on it; after a diagram mutation only a newly built executor is judged; which handler "
-        "generation runs after re-registration is not asserted",
+        "re-check, no clause depends on it; whether an existing executor follows later connects is left open (either diagram "
+        "version, per execution); modules added after construction and the handler generation run after re-registration are not "
+        "judged",
     ),
     "C17": (
-        "bounded-exhaustive enumeration of fingerprints around every baseline bound, Treg rule sets and training windows (engine D) + "
-        "explicit-state BFS over bare-TCell (to fixpoint), ImmuneSystem and two-agent histories under a virtual clock (engine A)",
-        "D-tcell: TCell.inspect over per-bound positions of 2 (thorough 5) trained profiles x manual flag x streak position x anergy. "
-        "D-treg: all threat level x action responses x 625 rule sets x tolerance records (stability threshold 0/1/3) x spellings of "
-        "the condition answer x rule duration, on fresh objects and through one shared Treg. D-train: every observation window of "
-        "length 2-3 (thorough + multisets of 4) over a 32-observation alphabet (thorough 48) x canary histories x 5 system shapes x "
-        "Thymus tolerances, then inspect. T: all histories of inspect / flag_manually / reset / reset_without_confirmation on a bare "
-        "TCell, to fixpoint. A: ImmuneSystem histories to depth 5 (6); X: a second agent, or a same-named agent in a second system, "
-        "carrying flags / streaks / memories, depth 4 (5). Oracle, one-directional, with streak, flag and dismissed false alarms "
-        "tracked from the call history: CONFIRMED/CRITICAL or isolate/shutdown => baseline violated and a second signal; strictly "
-        "inside => NONE/IGNORE; anergic => NONE/IGNORE; Treg never raises an action, lowers by at most one step, leaves CRITICAL "
-        "unchanged; POSITIVE training => the next inspect is NONE.",
-        "finite moderate floats only; values within 1e-9 of a bound take the weaker reading on both sides; a failed canary counts as "
-        "baseline violation and second signal at once; a bare TCell has no immune memory; fingerprint hash collisions, "
-        "ImmuneMemory.prune_old / import_signatures and TCells built with preset counters not explored; A and X are depth-bounded",
+        "bounded-exhaustive enumeration of fingerprints around every baseline bound, Treg rule sets and training windows (engine D) "
+        "+ explicit-state BFS over bare-TCell (to fixpoint), ImmuneSystem and two-agent histories under a virtual clock (engine A)",
+        "D-tcell: TCell.inspect over per-bound positions of 2 (thorough 5) trained profiles x manual flag x streak position x "
+        "anergy. D-treg: all threat level x action responses x 625 rule sets x tolerance records (stability threshold 0/1/3) x "
+        "spellings of the condition answer x rule duration, on fresh objects and through one shared Treg. D-train: every "
+        "observation window of length 2-3 (thorough + multisets of 4) over 32 observations (thorough 48) x canary histories x 5 "
+        "system shapes x Thymus tolerances, then inspect. T: all histories of inspect / flag_manually / reset / "
+        "reset_without_confirmation on a bare TCell (thresholds incl. 0 and 1, with / without a used sibling watcher), to fixpoint. "
+        "A: ImmuneSystem histories to depth 5 (6); X: a second agent, or a same-named agent in a second system, carrying flags / "
+        "streaks / memories, depth 4 (5); key = recursive fingerprint of all instance fields of the watcher. Oracle, "
+        "one-directional, with streak, flag and dismissed false alarms tracked from the call history: CONFIRMED/CRITICAL or "
+        "isolate/shutdown => baseline violated and a second signal; strictly inside => NONE/IGNORE; anergic => NONE/IGNORE; Treg "
+        "never raises an action, lowers by at most one step, leaves CRITICAL unchanged; POSITIVE training => the next inspect is "
+        "NONE.",
+        "finite moderate floats only; values within 1e-9 of a bound take the weaker reading on both sides; a failed canary counts "
+        "as baseline violation and second signal at once; a bare TCell has no immune memory; fingerprint hash collisions, "
+        "ImmuneMemory.prune_old / import_signatures and TCells built with preset counters not explored; A and X are depth-bounded; "
+        "a failing engine or unbuildable root is a deferred harness error, the other engines still report",
     ),
     "C18": (
         "stateless choice-point search over every generator / worker / summariser / provider / tool answer sequence (engine B), "
@@ -247,17 +275,20 @@ REG = {
         "Choice points on the real ChaperoneLoop, RegenerativeSwarm and Nucleus.transcribe_with_tools: generator {valid, junk, "
         "schema-invalid, echo of the error context, '', 'null', same as before, raise}; worker factory {worker, raise}; step {fresh "
         "junk, repeat, '', marker, raise}; summariser {hints, [], None, stock default, raise}; provider round {no calls, one, two, "
-        "unknown tool, empty id/arguments, same calls as before, raise}; tool and completion outcomes; every raise in four flavours. "
-        "Budgets 0..3 (thorough 0..4) for max_retries, max_regenerations x max_steps_per_worker and max_iterations, plus limits "
-        "omitted, crossed with option variants (non-default options, empty-error chaperones, second call on the same objects, sibling "
-        "instance first, re-registered tools, empty prompt). Small configurations: complete answer tree; the others (142 of 399 in "
-        "quick): all sequences with <= 3 (thorough 4; two-call variants 2) non-default answers. A loop asking for more than budget+2 "
+        "unknown tool, empty id/arguments, same calls as before, raise}; tool and completion outcomes; every raise in four "
+        "flavours. Budgets 0..3 (thorough 0..4) for max_retries, max_regenerations x max_steps_per_worker and max_iterations, plus "
+        "limits omitted, crossed with option variants (non-default options, empty-error chaperones, second call, sibling instance "
+        "first, re-registered tools, empty prompt). Small configurations: complete answer tree; 624 of 881 in quick are bounded: "
+        "142 to all sequences with <= 3 (thorough 4; two-call variants 2) non-default answers, 482 exception-class configurations "
+        "to every single deviation from the always- and the never-succeeding adversary, raise ranging over all 46 builtin Exception "
+        "classes with and without message. Every invocation counts, whatever its arguments. A loop asking for more than budget+2 "
         "answers is cut and reported. Oracle: call counts within budget (also when an exception propagates), each retry carries the "
-        "previous error, HEALED/VALID => schema instance, DEGRADED tagging, success => marker, provider calls <= max_iterations + 1.",
-        "not exhaustive on the deviation-bounded configurations (listed in evidence caps_hit); error threading is checked with a "
-        "Chaperone subclass that numbers its misfold errors (the stock trace is constant); with an empty-error chaperone a "
-        "context-free retry is only noted; the tool's exception flavour is fixed per configuration; environment exceptions may "
-        "propagate (the statement bounds calls, not exception handling)",
+        "previous error, HEALED/VALID => schema instance, DEGRADED tagging, success => marker, provider calls <= max_iterations + "
+        "1.",
+        "not exhaustive on the bounded configurations (evidence caps_hit); the budget is what the caller passed, for omitted limits "
+        "the int default of the public signature (else the documented default), never the objects' limit attributes; error "
+        "threading is checked with a Chaperone subclass that numbers its misfold errors; two differently classed exceptions in one "
+        "run are not explored; environment exceptions may propagate (the statement bounds calls, not exception handling)",
     ),
     "C20": (
         "explicit-state BFS over configuration histories on a live Genome lineage against a reference dict + approval predicate "
@@ -295,22 +326,26 @@ REG = {
         "update_all_reliability are read back from the public field, not modelled",
     ),
     "C14": (
-        "stateless choice-point search with faults and external endings injected at every callback, between-steps point and lock step "
-        "(engine B) + differential follow-up BFS against a twin system (engine A)",
+        "stateless choice-point search with faults, external endings and resource re-registrations injected at every callback, "
+        "between-steps point and lock step (engine B) + differential follow-up BFS against a twin system (engine A)",
         "Scenarios: driver (execute_operation, IntegratedCell.execute, manual API) x request list over r1..r3 of length 0..3 with "
-        "repeats (quick: one per renaming class, 9 of 40; thorough also all 40 on the plain variant) x priority {0,5,9} x validate "
+        "repeats (quick: 9 renaming classes of 40; thorough all 40 on the plain variant) x priority {0,5,9} x validate "
         "present/absent x per requested resource {free, held by a priority-0 / priority-9 holder} x preemptable x system variants "
         "(watchdog limits, a history on the same id, cell options). Choice points: checkpoint {default, false, None, 0, truthy "
         "non-bool, raise, empty-message raise, StopIteration, external ending}, work_fn and validate_fn likewise, nested preemptor; "
         "for the one-shot drivers every try_acquire / release the library issues {ending right before / right after} x {kill, "
-        "watchdog under a virtual clock, shutdown}; <= 1 (thorough 2) non-default answers per run. Oracle whenever an ending or the "
-        "driver returns: the operation owns no registered resource and is not active; unobtained resources keep their pre-call "
-        "(owner, hold_count, priority); work ran at most once holding everything; validation only after work; success only if both "
-        "succeeded. Further operations to depth 2 (3) from every final state must match a twin system on which the operation never ran.",
-        "single-threaded: endings reach a one-shot operation only from its callbacks or lock steps (ProbeLock, a ResourceLock subclass "
-        "registered publicly); liveness at an ending is decided from the call history; a lock granted inside the interrupted "
-        "try_acquire is judged at driver return only; waiting_list residue and holder priority boosts are not judged; system variants "
-        "are not all crossed with each other",
+        "watchdog under a virtual clock, shutdown}; wherever an ending is offered a requested resource may instead be re-registered "
+        "(system.register_resource, same / toggled preemption flag; before acquisition, while held, after release); <= 1 (thorough "
+        "2) non-default answers per run. Oracle whenever an ending or the driver returns: the operation owns no registered resource "
+        "and is not active; unobtained resources keep their pre-call (owner, hold_count, priority); a re-registered one ends as "
+        "re-registered or free; work ran at most once holding everything; validation only after work; success only if both "
+        "succeeded. Further operations to depth 2 (3) from every final state must match a twin system on which the operation never "
+        "ran.",
+        "single-threaded: endings reach a one-shot operation only from its callbacks or lock steps (ProbeLock, a ResourceLock "
+        "subclass registered publicly); liveness at an ending is decided from the call history; a lock granted inside the "
+        "interrupted try_acquire is judged at driver return only; a re-registration's effect is observed, not prescribed: the "
+        "obtained set is then the observed lock grants, the follow-up one level shallower; waiting_list residue and priority boosts "
+        "are not judged",
     ),
     "C15": (
         "explicit-state BFS over acquire / release / complete / abort / watchdog histories against a wait-for graph recomputed from the "
@@ -330,22 +365,24 @@ REG = {
         "member; firing watchdog timeouts, advance() and re-registration of an owned resource are outside the alphabet",
     ),
     "C19": (
-        "stateless choice-point search over every checkpoint / processor / error-handler answer (engine B) x exhaustively enumerated "
-        "static shapes, options, construction paths and history prefixes",
-        "Pipelines of 1..3 stages (thorough 4, and 5 with <= 3 deviations) x every static shape (checkpoint present, handler present, "
-        "required, amplification 1/2/150) x both halt_on_failure settings on the real Cascade.run; answers, asked only when the "
-        "callback is really invoked, come from a family per class: checkpoint true {True,1,'x',[0]}, false {False,None,0,'',[]}, "
-        "raise {message, ValueError(), AssertionError(), StopIteration(), KeyError(''), empty-str and falsy exceptions}; processor and "
-        "handler value / falsy-but-valid value / raise (widened families on the shorter pipelines). Crossed with one or two "
-        "non-default options (silent, mode, max_amplification, hooks, stage names, timeout_seconds, input signal), the construction "
-        "path (add / insert / decoy) and history prefixes (earlier run, shared stage objects, run_parallel, run before add_stage / "
-        "remove_stage), the judged run compared with a fresh object; plus the MAPK preset. Oracle from the invocation log with "
-        "identical signal objects: a processor runs only after its checkpoint returned true for that same signal; nothing runs after "
-        "a blocked / failed required stage when halting; success <=> all stages completed in order with the composed output, no "
-        "output otherwise; clamped amplification product.",
-        "amplification factors and max_amplification >= 1 only; callbacks raise Exception subclasses and completion hooks return "
-        "normally; run_parallel appears only as a history prefix; 'nothing later runs' is asserted for required stages (a non-halting "
-        "blocked optional stage would be an observation); the reported factor of a recovered stage is not fixed by the statement",
+        "stateless choice-point search over every checkpoint / processor / error-handler answer (engine B) x exhaustively "
+        "enumerated static shapes, options, construction paths and history prefixes",
+        "Pipelines of 1..3 stages (thorough 4, and 5 with <= 3 deviations) x every static shape (checkpoint present, handler "
+        "present, required, amplification 1/2/150) x both halt_on_failure settings on the real Cascade.run; answers, asked only "
+        "when the callback is invoked, form a family per class: checkpoint true {True,1,'x',[0]}, false {False,None,0,'',[]}, raise "
+        "{message, ValueError(), AssertionError(), StopIteration(), KeyError(''), empty-str and falsy exceptions}; processor and "
+        "handler value / falsy-but-valid value / raise. Crossed with one or two non-default options (silent, mode, "
+        "max_amplification, hooks, stage names, timeout_seconds, input signal), the construction path (add / insert / decoy) and "
+        "history prefixes (earlier run, shared stage objects, run_parallel, run before add_stage / remove_stage), compared with a "
+        "fresh object; plus the MAPK preset (stages found by type). Attenuation families: factors {1, 2, 150, 0.5, 0.1, 0}, every "
+        "tuple with a factor below 1 on 1..3 stages, patterns on 4..5 stages (<= 2 deviations), x max_amplification. Oracle from "
+        "the invocation log: a processor runs only after its checkpoint returned true for that same signal object; nothing runs "
+        "after a blocked / failed required stage when halting; success <=> all stages completed in order with the composed output; "
+        "total_amplification = clamp of the running or of the final product (exact Fractions).",
+        "no negative factors, max_amplification >= 1; where the two clamp readings differ either is accepted; callbacks raise "
+        "Exception subclasses and completion hooks return normally; run_parallel appears only as a history prefix; 'nothing later "
+        "runs' is asserted for required stages (a non-halting blocked optional stage would be an observation); the reported factor "
+        "of a recovered stage is not fixed by the statement",
     ),
 }
 
